@@ -210,6 +210,19 @@ def option_consumers(run, ctx):
                 run.violation(fam, label, "consumer/%s/%s" % (f, c), "src/lib.rs",
                               "RegexOptions.%s (set by %s) is not read in %s: the option does not take effect on that path" % (f, ",".join(ss), c))
     run.floor(fam, label, "src/lib.rs", n, 4, "RegexOptions fields written by RegexBuilder setters")
+    # ... and consulted nowhere else: an option that some other component also looks at acts differently on the
+    # patterns that reach that component (e.g. a VM instruction reading the case-insensitivity bit only sees the
+    # builder's setting, never an inline (?i) or (?-i:..))
+    allowed = {"syntaxc": {"compile::compile_inner", "Regex::new_options"},
+               "backtrack_limit": {"vm::run"},
+               "delegate_size_limit": {"compile::compile_inner"},
+               "delegate_dfa_size_limit": {"compile::compile_inner"}}
+    for f, rd in sorted(reads.items()):
+        extra = {r for r in rd if not r.startswith("RegexBuilder::") and not r.startswith("<RegexOptions as ") and "{closure" not in r} - allowed.get(f, set())
+        for r in sorted(extra):
+            if f not in allowed:
+                continue
+            run.violation(fam, label, "extra-reader/%s/%s" % (f, r), "src", "RegexOptions.%s is also consulted in %s (expected only %s): the option would act differently depending on which component handles the pattern" % (f, r, sorted(allowed[f])))
     # size limits reach the regex-automata config; syntax config is passed on
     ci = S.get_fn(run, ctx, "compile::compile_inner", fam, label)
     if ci is not None:
